@@ -7,7 +7,9 @@ MANIFEST = {
              "registered under its id at that moment, in arrival order; the final frame closes the entry; no other operation changes any page "
              "list); step-level frame condition of a delivery (only the target request, the pool and the finished list move); a response for an "
              "unknown id returns an error and changes nothing; EVENT frames go to handlers and the event queue only; a multi-page response of up "
-             "to maxPending waiting pages is delivered completely and completes its request. Tie: payload-tagged responses in every permutation "
+             "to maxPending waiting pages is delivered completely and completes its request; id reuse racing with a late page: while a request "
+             "that failed without its final frame (timeout, overflow) is unanswered, over every continuation its entry keeps its pages, a new "
+             "request with its id is refused, and the late frames are refused without touching any other request. Tie: payload-tagged responses in every permutation "
              "for k<=4 (5 in thorough) x 1..3 pages, with spurious ids, overflow, and events through the real processIncomingFrame, compared with the "
              "model under vm_compute; the routing predicate is evaluated on the implementation after every step."),
     "technique": "Rocq proof (refinement to an abstract page map, induction over histories) + model/code correspondence on operation histories",
@@ -26,6 +28,14 @@ def check(run):
         "(round by round), with and without interleaved responses for an unknown id, then k more sends; perm-overflow: maxPending+1 pages "
         "without a consumer; exh-*-conn / rand conn: histories through a real CqlClientConnection without its goroutines (Send with the "
         "outgoing queue, processIncomingFrame with EVENT and response frames). Every frame carries its position in the history as payload "
-        "tag; after the history each request's received tags are compared with the tags addressed to it while registered. "
+        "tag; after the history each request's received tags are compared with the tags that answer it (a frame for id k answers the "
+        "oldest accepted request with id k whose final frame has not arrived). "
+        "reuse-* / exh-reuse-* / rand-reuse-*: id reuse racing with a late page - a request with a caller-chosen id fails without its final "
+        "frame (maxPending+1 unread pages, or the read timeout in real time), the id is sent again (must be refused), the late frames "
+        "arrive; directed, every continuation to depth 3, random. flood-conn: more EVENT frames than the events queue holds (nobody "
+        "drains it) interleaved with responses. timing-paged: multi-page responses in real time, a page every 0.2-0.3 read timeouts for "
+        "more than 2 timeouts (all pages must arrive, verdict timeout-early otherwise). Every call into the library runs under a watchdog: "
+        "a processIncomingFrame that never returns is reported as receiver-blocked with the history and the step, the response frames "
+        "behind it as delivery-failed. "
         "non-trivial = at least one request accepted and at least one other kind of outcome; distinct = distinct (N, maxPending, mode, ops)")
     il.verdict(run, "C10", broken, findings)
